@@ -15,6 +15,12 @@ func outcomeMonitor(endpoint string, rp sim.Response) []finding {
 	if rp.Panic != "" || strings.HasPrefix(rp.Err, "HARNESS") || endpoint == "Send" {
 		return nil // Send has no ResponseWriter; its outcome is (activity, error)
 	}
+	if rp.WriteFailed {
+		// The simulated ResponseWriter refused the body after the status
+		// line went out: the library cannot take the status back, and the
+		// statement does not cover a failing ResponseWriter. Not judged.
+		return nil
+	}
 	site := "pub.(*baseActor)." + endpoint
 	if endpoint == "Handler" {
 		site = "pub.NewActivityStreamsHandlerScheme"
@@ -60,7 +66,7 @@ func statusModel(exp expectation) string {
 	}
 	if exp.Endpoint == "PostInbox" || exp.Endpoint == "PostOutbox" {
 		switch {
-		case exp.BodyClass == "nonjson":
+		case exp.BodyClass == "nonjson" || exp.BodyClass == "body-read-fails":
 			return "error"
 		case exp.BodyClass == "unknown-type":
 			return "400"
@@ -100,6 +106,12 @@ func judgeStatus(exp expectation, sc *sim.Scenario, res *sim.Result) []finding {
 		return nil
 	}
 	want := statusModel(exp)
+	if len(sc.Requests) > 0 && sc.Requests[0].BodyFailAfter != nil {
+		switch want {
+		case "400", "403", "200", "201":
+			want = "error" // the body is read after authentication and before anything else
+		}
+	}
 	site := "pub.(*baseActor)." + exp.Endpoint
 	if exp.Endpoint == "Handler" {
 		site = "pub.NewActivityStreamsHandlerScheme"
@@ -145,6 +157,16 @@ func judgeStatus(exp expectation, sc *sim.Scenario, res *sim.Result) []finding {
 		}
 	}
 	return nil
+}
+
+// rejectedByDesign names corpus entries whose well-formed body the default
+// side effect refuses (with an error, which the statement leaves open):
+// the status model does not expect 200/201 for them.
+var rejectedByDesign = map[string]bool{
+	"inbox.Update.iri-object":              true,
+	"outbox.Update.iri-object":             true,
+	"inbox.Follow.onfollow=7":              true,
+	"inbox.forwarding.audience-without-id": true,
 }
 
 // idFamily returns the "usable id" variants for an inbox activity body.
@@ -241,6 +263,9 @@ func init() {
 					res := sim.Run(pc.Sc)
 					r.Eval(1)
 					r.Count("product_requests", 1)
+					if rejectedByDesign[ce.Name] && pc.Exp.BodyClass == "valid" {
+						pc.Exp.BodyClass = "valid-but-rejected-by-default-effect"
+					}
 					rp := res.Responses[0]
 					if rp.Handled {
 						r.NonTrivial(fmt.Sprintf("%s|%v", ce.Name, pc.Exp))
@@ -287,6 +312,18 @@ func init() {
 				}
 				if len(base.Cfg.FedOther)+len(base.Cfg.SocOther) > 0 {
 					return // an 'other' override replaces the default effect, including its required-member check
+				}
+				if rq.BodyFailAfter != nil {
+					// the body never arrives: whatever it would have said,
+					// the outcome is "handled with an error, nothing written"
+					res := sim.Run(base)
+					r.Eval(1)
+					r.Count("body_read_failures", 1)
+					exp := expectation{Endpoint: rq.Kind, AP: "yes", BodyClass: "body-read-fails"}
+					r.NonTrivial(ce.Name)
+					report(base, exp, res, outcomeMonitor(rq.Kind, res.Responses[0]))
+					report(base, exp, res, judgeStatus(exp, base, res))
+					return
 				}
 				run := func(class string, b M) {
 					sc := cloneScenario(base)
